@@ -21,10 +21,9 @@ package kernel
 //@   ensures forall i int :: 0 <= i && i < len(result0.Snapshots) ==> result0.Snapshots[i] != nil
 //@ assume func (node *Node) CheckBroadcastedToPeers
 //@   modifies nothing
-//@ assume func (recv storage.Store) ReadRound(hash)
-//@   -- a round that is referenced by the head round exists: a successful read returns it
-//@   modifies nothing
-//@   ensures err == nil ==> result0 != nil
+//@ -- (storage.Store).ReadRound: the assumed interface contract of C20 (storage/zz_contracts_c20_verif.go) is the one in force (a second assumed
+//@ -- contract here shadowed it by load order and broke C20). NOTE for C24: the clause this draft relied on, "err == nil ==> result0 != nil" for a
+//@ -- round referenced by the head round, is NOT part of C20's contract (ReadRound returns (nil, nil) for an absent key).
 //@ assume func (chain *Chain) determineBestRound
 //@   modifies nothing
 //@ assume func (chain *Chain) updateEmptyHeadRoundAndPersist
